@@ -46,7 +46,8 @@ def prog_str(progs):
     return ';'.join(','.join('%s%d' % op for op in ops) or '-' for ops in progs) or '-'
 
 
-def scenario(C, E, progs, choose, transport='plain', capw=300, capr=50, fine=False, listener=None, fail_prefix=None):
+def scenario(C, E, progs, choose, transport='plain', capw=300, capr=50, fine=False, listener=None, fail_prefix=None,
+             shutdown_fails=False):
     """run one scenario to completion; returns dict(log, ran, wire bytes, …)"""
     from minecraft.networking.packets import serverbound
     rng_dummy = None
@@ -93,6 +94,7 @@ def scenario(C, E, progs, choose, transport='plain', capw=300, capr=50, fine=Fal
         attached = isinstance(conn._write_lock, FLock)
         isock = SC.ISock(S)
         isock.fail_prefix = fail_prefix
+        isock.shutdown_fails = shutdown_fails
         # the transport is set up by the library's own _connect() (queue creation included) against a
         # stand-in for the socket module whose socket() is the instrumented one
         import socket as real_socket
@@ -380,8 +382,10 @@ def run(ctx):
             if users and rng.random() < 0.5 + bias / 2:
                 return rng.choice(users)
             return rng.choice(en)
-        r = scenario(C, E, progs, choose, 'plain', fail_prefix=fail)
-        label = 'graceful disconnect whose flush fails at length prefix #%d, then disconnect(immediate=True)' % fail
+        sdf = i % 3 == 0
+        r = scenario(C, E, progs, choose, 'plain', fail_prefix=fail if not sdf else None, shutdown_fails=sdf)
+        label = ('graceful disconnect whose flush fails at length prefix #%d, then disconnect(immediate=True)' % fail) if not sdf \
+            else 'disconnect on a socket whose shutdown() fails (peer reset)'
         ctx.case(('failing-flush', prog_str(progs), fail, tuple(r['ran'])), sample={'programs': prog_str(progs), 'kind': 'failing-flush', 'fail': fail})
         ctx.count('failing_flush_walks')
         log = r['log']
